@@ -4,7 +4,8 @@ Nothing in this file imports the code under test.  A flow case is JSON:
 
     ws        nested {name: content-string | subtree}           the workspace
     tracked   [[part, ...], ...]  keys (depth 1 or 2) of workspace files / directories, prefix-free
-    prefixes  [{"key": [...], "cache": i|None, "remote": j|None}, ...]   storage map, in insertion order
+    prefixes  [{"key": [...], "cache": i|None, "remote": j|None}, ...]   storage map, in insertion order;
+              a prefix may lie strictly inside a tracked directory as long as the cache does not change there
 
 All functions below are pure functions of that data.
 """
@@ -67,7 +68,7 @@ class Model:
                 oid = ref.ref_hash(self.flat[rel])
                 self.bytes[oid] = self.flat[rel]
                 self.entries[k] = {"isdir": False, "oid": oid, "reach": {oid}, "files": {rel: self.flat[rel]},
-                                   "listed": set()}
+                                   "listed": set(), "man": {}}
             else:
                 man = manifest_under(self.flat, k)
                 oid = ref.ref_tree_oid(man)
@@ -78,7 +79,7 @@ class Model:
                     files[full] = self.flat[full]
                     self.bytes[man[sub]] = self.flat[full]
                 self.entries[k] = {"isdir": True, "oid": oid, "reach": {oid} | set(man.values()),
-                                   "files": files, "listed": set(man.values())}
+                                   "files": files, "listed": set(man.values()), "man": man}
         self.res = {k: resolve(self.prefixes, k)[1] for k in self.tracked}
 
     # ---- domain ----------------------------------------------------------------------------
@@ -101,7 +102,15 @@ class Model:
         for p in keys:
             for k in self.tracked:
                 if len(p) > len(k) and is_prefix(k, p):
-                    return "storage prefix strictly inside a tracked entry"
+                    # a storage prefix strictly inside a tracked entry: a path inside a tracked directory, and
+                    # the cache must not change there (a directory object and the files it lists live in one
+                    # store - transfer and save rely on that)
+                    if not self.entries[k]["isdir"]:
+                        return "storage prefix below a tracked file"
+                    if "/".join(p) not in self.flat and p not in self.dirs:
+                        return "inner storage prefix is not a workspace path"
+                    if resolve(self.prefixes, p)[1]["cache"] != self.res[k]["cache"]:
+                        return "the cache changes inside a tracked directory"
         nc, nr = len(c["cache_kinds"]), len(c["remote_kinds"])
         for p in self.prefixes:
             if p["cache"] is not None and not 0 <= p["cache"] < nc:
@@ -109,8 +118,10 @@ class Model:
             if p["remote"] is not None and not 0 <= p["remote"] < nr:
                 return "remote index out of range"
         for k in self.tracked:
-            if self.res[k]["cache"] is None or self.res[k]["remote"] is None:
-                return f"tracked entry {k} lacks a cache or a remote"
+            if self.res[k]["cache"] is None:
+                return f"tracked entry {k} lacks a cache"
+        if not any(rm is not None for _o, _c, rm, _k in self.designation()):
+            return "no tracked object has a remote"
         for p in keys:
             r = resolve(self.prefixes, p)[1]
             if r["remote"] is not None and r["cache"] is None:
@@ -140,36 +151,66 @@ class Model:
     def involved_keys(self):
         """Tracked keys lying under a prefix that resolves to a shaped remote."""
         sh = self.shaped_remotes()
-        return {k for k in self.tracked for pk, _c, r in self.prefix_res() if r in sh and is_prefix(pk, k)}
+        return {k for k in self.tracked for pk, _c, r in self.prefix_res()
+                if r in sh and (is_prefix(pk, k) or is_prefix(k, pk))}
 
     def cacheof(self):
         """{remote: its one cache} for the remotes paired with a single cache."""
         return {r: next(iter(cs)) for r, cs in self.caches_of_remote().items() if len(cs) == 1}
 
-    def designated(self, role):
+    def designation(self, keys=None):
+        """[(oid, cache, remote, tracked key)] - one item per tracked object occurrence.  A plain file and a
+        directory object belong to what their entry key resolves to; a file listed by a directory belongs to
+        what its own full key resolves to (a longer prefix inside the directory may override the remote)."""
+        out = []
+        for k in (self.tracked if keys is None else keys):
+            e = self.entries[k]
+            out.append((e["oid"], self.res[k]["cache"], self.res[k]["remote"], k))
+            for rel, oid in e["man"].items():
+                r = resolve(self.prefixes, k + tuple(rel.split("/")))[1]
+                out.append((oid, r["cache"], r["remote"], k))
+        return out
+
+    def designated(self, role, keys=None):
         """{store index: set(oids)}: the objects the mapping designates to each store of `role`."""
         out = {}
-        for k, e in self.entries.items():
-            out.setdefault(self.res[k][role], set()).update(e["reach"])
+        for oid, c, r, _k in self.designation(keys):
+            store = c if role == "cache" else r
+            if store is not None:
+                out.setdefault(store, set()).add(oid)
+        return out
+
+    def objs_under(self, pk, keys=None):
+        """Objects of the tracked entries lying under storage prefix `pk`: whole entries at or below it, and
+        the files below it of a tracked directory that contains it."""
+        pk = tuple(pk)
+        out = set()
+        for k in (self.tracked if keys is None else keys):
+            e = self.entries[k]
+            if is_prefix(pk, k):
+                out |= e["reach"]
+            elif is_prefix(k, pk):
+                sub = pk[len(k):]
+                for rel, oid in e["man"].items():
+                    if tuple(rel.split("/"))[: len(sub)] == sub:
+                        out.add(oid)
         return out
 
     def requested_remote(self):
-        """{remote: set(oids)}: upper bound - objects of every tracked entry lying under *some* prefix whose
-        resolved remote is that store (equals designated('remote') unless a longer prefix overrides the
-        remote of a shorter one)."""
+        """{remote: set(oids)}: upper bound - objects of every tracked entry (or part of one) lying under *some*
+        prefix whose resolved remote is that store (equals designated('remote') unless a longer prefix overrides
+        the remote of a shorter one)."""
         out = {}
-        for p in self.prefixes:
-            r = resolve(self.prefixes, p["key"])[1]["remote"]
-            if r is None:
-                continue
-            s = out.setdefault(r, set())
-            for k, e in self.entries.items():
-                if is_prefix(p["key"], k):
-                    s.update(e["reach"])
+        for pk, _c, r in self.prefix_res():
+            out.setdefault(r, set()).update(self.objs_under(pk))
         return out
 
     def straddling(self, dkey):
-        return any(len(p["key"]) > len(dkey) and is_prefix(dkey, p["key"]) for p in self.prefixes)
+        """A directory below which the cache changes (its listing and its files would go to different caches)."""
+        own = resolve(self.prefixes, dkey)[1]["cache"]
+        pre = "/".join(dkey) + "/"
+        return any(resolve(self.prefixes, tuple(rel.split("/")))[1]["cache"] != own
+                   for rel in self.flat if rel.startswith(pre))
 
     def expected_cache_after_save(self):
         """{cache: {oid: bytes}} for a save of the whole workspace minus entries without a cache and
